@@ -448,13 +448,105 @@ mod imp2 {
                 if let Some(g) = g { go!(g) } else if let Some(ro) = ro { go!(ro) } else { go!(HalfGauss) }
                 json!({"steps": outs})
             }
+            "run_continuation" => {
+                // run(a, b) then run(c, 0) on one sampler vs run(a + c, b) on an identically seeded one; state after run
+                use mini_mcmc::nuts::NUTSChain;
+                let (a, b, c) = (case["a"].as_u64().unwrap() as usize, case["b"].as_u64().unwrap() as usize, case["c"].as_u64().unwrap() as usize);
+                let seed = case["seed"].as_u64().unwrap_or(3);
+                let g = || DiffableGaussian2D::<f64>::new([0.0, 1.0], [[4.0, 2.0], [2.0, 3.0]]);
+                match case["sampler"].as_str().unwrap_or("hmc") {
+                    "hmc" => {
+                        let mk = || HMC::<f64, B64, _>::new(g(), vec![vec![0.5, -0.5], vec![1.0, 1.2], vec![-0.3, 0.1]], 0.2, 3).set_seed(seed);
+                        let (mut s1, mut s2) = (mk(), mk());
+                        let r1: Vec<f64> = s1.run(a, b).to_data().to_vec().unwrap();
+                        let pos_after: Vec<f64> = s1.positions.to_data().to_vec().unwrap();
+                        let r2: Vec<f64> = s1.run(c, 0).to_data().to_vec().unwrap();
+                        let long: Vec<f64> = s2.run(a + c, b).to_data().to_vec().unwrap();
+                        json!({"first": nums(&r1), "second": nums(&r2), "long": nums(&long), "pos_after_first": nums(&pos_after), "shape": [3, a, 2]})
+                    }
+                    _ => {
+                        let mk = || NUTSChain::<f64, B64, _>::new(g(), vec![0.5, -0.5], 0.8).set_seed(seed);
+                        let mut s1 = mk();
+                        let r1: Vec<f64> = s1.run(a, b).to_data().to_vec().unwrap();
+                        let pos_after: Vec<f64> = s1.position.to_data().to_vec().unwrap();
+                        let rng_after = s1.verif_rng().clone();
+                        // a twin that makes exactly a + b - 1 transitions by hand
+                        let mut twin = mk();
+                        let _ = twin.run(1, 0); // init only: picks eps0, no transition
+                        let mut t2 = mk();
+                        let r1b: Vec<f64> = t2.run(a, b).to_data().to_vec().unwrap();
+                        let r2: Vec<f64> = s1.run(c.max(1), 0).to_data().to_vec().unwrap();
+                        json!({"first": nums(&r1), "first_again": nums(&r1b), "second": nums(&r2), "pos_after_first": nums(&pos_after),
+                               "rng_same_as_rerun": &rng_after == t2.verif_rng(), "shape": [a, 2]})
+                    }
+                }
+            }
+            "run_chain_progress" => {
+                use mini_mcmc::core::{run_chain, run_chain_progress, MarkovChain};
+                struct Counter { state: Vec<f64>, steps: usize }
+                impl MarkovChain<f64> for Counter {
+                    fn step(&mut self) -> &Vec<f64> { self.steps += 1; self.state[0] += 1.0; self.state[1] -= 1.0; &self.state }
+                    fn current_state(&self) -> &Vec<f64> { &self.state }
+                }
+                let ncol = case["n_collect"].as_u64().unwrap() as usize;
+                let ndis = case["n_discard"].as_u64().unwrap() as usize;
+                let (tx, rx) = std::sync::mpsc::channel();
+                let kept = if case["receiver"].as_str() == Some("kept") { Some(rx) } else { drop(rx); None };
+                let mut a = Counter { state: vec![0.0, 0.0], steps: 0 };
+                let mut b = Counter { state: vec![0.0, 0.0], steps: 0 };
+                let r = run_chain_progress(&mut a, ncol, ndis, tx);
+                let plain = run_chain(&mut b, ncol, ndis);
+                let last_n = kept.as_ref().and_then(|rx| rx.try_iter().last()).map(|s| s.n);
+                match r {
+                    Ok(arr) => json!({"ok": true, "same_as_run": arr == plain, "steps": a.steps, "last_report_n": last_n}),
+                    Err(_) => json!({"ok": false, "steps": a.steps}),
+                }
+            }
+            "progress_terminates" => {
+                // real run_progress with k chains (more than the 5 bars when k > 5) under a wall-clock limit;
+                // also compares the draws with run() on an identically seeded sampler
+                use mini_mcmc::core::ChainRunner;
+                use mini_mcmc::distributions::{Gaussian2D, IsotropicGaussian, Proposal};
+                use mini_mcmc::metropolis_hastings::MetropolisHastings;
+                let k = case["chains"].as_u64().unwrap_or(6) as usize;
+                let limit = case["limit_s"].as_u64().unwrap_or(20);
+                let (txd, rxd) = std::sync::mpsc::channel();
+                std::thread::spawn(move || {
+                    let mk = || {
+                        let target = Gaussian2D::<f64> { mean: ndarray::arr1(&[0.0, 0.0]), cov: ndarray::arr2(&[[1.0, 0.0], [0.0, 1.0]]) };
+                        let proposal = IsotropicGaussian::<f64>::new(1.0).set_seed(3);
+                        MetropolisHastings::new(target, proposal, vec![vec![0.0_f64, 0.0]; k]).seed(11)
+                    };
+                    let mut a = mk();
+                    let mut b = mk();
+                    let r = a.run_progress(4, 1);
+                    let plain = b.run(4, 1).unwrap();
+                    let same = match &r {
+                        Ok((s, _)) => s == &plain,
+                        Err(_) => false,
+                    };
+                    let _ = txd.send((r.is_ok(), same));
+                });
+                match rxd.recv_timeout(std::time::Duration::from_secs(limit)) {
+                    Ok((ok, same)) => json!({"timeout": false, "ok": ok, "same_draws_as_run": same}),
+                    Err(_) => {
+                        println!("{}", json!({"timeout": true}));
+                        std::process::exit(0);
+                    }
+                }
+            }
             "nuts_set_seed_max" => {
                 use mini_mcmc::nuts::NUTS;
-                let g = DiffableGaussian2D::<f64>::new([0.0, 0.0], [[1.0, 0.0], [0.0, 1.0]]);
-                let s = NUTS::<f64, B64, _>::new(g, vec![vec![0.0, 0.0]; 3], 0.8).set_seed(u64::MAX - 1);
-                let ch = s.verif_chains();
-                let distinct = ch[0].verif_rng() != ch[1].verif_rng() && ch[1].verif_rng() != ch[2].verif_rng() && ch[0].verif_rng() != ch[2].verif_rng();
-                json!({"distinct": distinct})
+                let seed = case["seed"].as_u64().unwrap_or(u64::MAX - 1);
+                let mk = || {
+                    let g = DiffableGaussian2D::<f64>::new([0.0, 0.0], [[1.0, 0.0], [0.0, 1.0]]);
+                    NUTS::<f64, B64, _>::new(g, vec![vec![0.0, 0.0]; 3], 0.8).set_seed(seed)
+                };
+                let (a, b) = (mk(), mk());
+                let (ca, cb) = (a.verif_chains(), b.verif_chains());
+                let distinct = ca[0].verif_rng() != ca[1].verif_rng() && ca[1].verif_rng() != ca[2].verif_rng() && ca[0].verif_rng() != ca[2].verif_rng();
+                let reproducible = (0..3).all(|i| ca[i].verif_rng() == cb[i].verif_rng());
+                json!({"distinct": distinct, "reproducible": reproducible})
             }
             "progress_precision" => {
                 // run_progress on every element type x backend precision; a panic is caught and reported
